@@ -65,17 +65,17 @@ def typeMappingsOf : LangCfg → List (Str × Str)
 
 /-! ## definitions -/
 
-/-- **the name the declaration of an item is emitted under** -/
+/-- **the name the declaration of an item is emitted under**: `id.renamed` behind the configured
+prefix, in every back end and for every kind of item — except Go enums (go.rs `write_enum`:
+`acr(id.original)`, pinned by a snapshot test; the class `Known_def_original`).  Kotlin / Scala / Go
+type aliases are defined under `id.renamed` since the `fix:` commit b182a80. -/
 def defName : LangCfg → RustItem → Str
   | .typescript _, it => (itemId it).renamed                 -- typescript.rs:162,198,223
-  | .kotlin c, .alias a =>                                   -- kotlin.rs:125 (value class) / 150 (typealias)
-    c.pfx ++ (if Lang.Kotlin.isInline a.decorators then a.id.renamed else a.id.original)
-  | .kotlin c, it => c.pfx ++ (itemId it).renamed            -- kotlin.rs:192,250
+  | .kotlin c, it => c.pfx ++ (itemId it).renamed            -- kotlin.rs:125 (alias, value class), 192, 250
   | .swift c, it => c.pfx ++ (itemId it).renamed             -- swift.rs:251,278,429 (inside back-ticks if a keyword)
-  | .scala _, .alias a => a.id.original                      -- scala.rs:149
-  | .scala _, it => (itemId it).renamed
-  | .go _, .struct s => s.id.renamed                         -- go.rs:228
-  | .go _, it => (itemId it).original                        -- go.rs:197 (alias), 269/283/312 (enums)
+  | .scala _, it => (itemId it).renamed                      -- scala.rs:149 (alias), 172, 203
+  | .go _, .enum e => e.id.original                          -- go.rs:269/283/312 (enums)
+  | .go _, it => (itemId it).renamed                         -- go.rs:197 (alias), 228 (struct)
   | .python _, it => (itemId it).renamed                     -- python.rs:281,325,344,630
 
 def innerSuffix : Str := s%"Inner"
@@ -128,13 +128,13 @@ scope (Rust's scoping), else to the item of that name -/
 def tgt (scope : List Str) (id : Str) : Target := if scope.contains id then .param id else .type id
 
 mutual
-  /-- the references inside one type expression *as written in the source*: a `simple` leaf is
-  printed from the name `reconcile` left there, the head of a generic application from the name in
-  the source (`check_type` does not touch it).  `scope`: the Rust generic parameters in scope;
-  `gens`: the `generic_types` the back end passes to `format_type`. -/
+  /-- the references inside one type expression *as written in the source*: a `simple` leaf and
+  (since the `fix:` commit 821da1d) the head of a generic application are printed from the name
+  `reconcile` left there.  `scope`: the Rust generic parameters in scope; `gens`: the
+  `generic_types` the back end passes to `format_type`. -/
   def typeRefs (lc : LangCfg) (r : Renames) (scope gens : List Str) : RustType → List Ref
     | .simple id => [⟨spell lc gens (recName r id), tgt scope id, false⟩]
-    | .generic id ps => ⟨spell lc gens id, tgt scope id, true⟩ :: typeRefsList lc r scope gens ps
+    | .generic id ps => ⟨spell lc gens (recName r id), tgt scope id, true⟩ :: typeRefsList lc r scope gens ps
     | .vec t => typeRefs lc r scope gens t
     | .array t _ => typeRefs lc r scope gens t
     | .slice t => typeRefs lc r scope gens t
@@ -146,22 +146,23 @@ mutual
     | t :: ts => typeRefs lc r scope gens t ++ typeRefsList lc r scope gens ts
 end
 
-/-- the super type every case of the enum names (`KtCase.parent`, `ScCase.parent`); the other back
-ends print no parent -/
+/-- the super type every case of the enum names (`KtCase.parent`, `ScCase.parent`; `id.renamed`
+since the `fix:` commit 03e02a1); the other back ends print no parent -/
 def parentRefs (lc : LangCfg) (e : RustEnum) : List Ref :=
   match lc, e.keys with
-  | .kotlin c, some _ => [⟨c.pfx ++ e.id.original, .parent e.id.original, false⟩]   -- kotlin.rs:405-423
-  | .scala _, some _ => [⟨e.id.original, .parent e.id.original, false⟩]             -- scala.rs:336-347
+  | .kotlin c, some _ => [⟨c.pfx ++ e.id.renamed, .parent e.id.original, false⟩]    -- kotlin.rs:405-423
+  | .scala _, some _ => [⟨e.id.renamed, .parent e.id.original, false⟩]              -- scala.rs:336-347
   | .scala _, none => [⟨e.id.renamed, .parent e.id.original, false⟩]
   | _, _ => []
 
-/-- the reference a struct variant's content makes to its helper struct -/
+/-- the reference a struct variant's content makes to its helper struct (Kotlin / Scala:
+`<renamed><Variant>Inner` since the `fix:` commit 03e02a1) -/
 def innerRefs (lc : LangCfg) (e : RustEnum) (v : Str) : List Ref :=
   match lc with
   | .typescript _ => []
-  | .kotlin c => [⟨c.pfx ++ e.id.original ++ v ++ innerSuffix, .inner e.id.original v, false⟩]
+  | .kotlin c => [⟨c.pfx ++ e.id.renamed ++ v ++ innerSuffix, .inner e.id.original v, false⟩]
   | .swift c => [⟨c.pfx ++ Lang.Swift.anonymousStructName e v, .inner e.id.original v, false⟩]
-  | .scala _ => [⟨e.id.original ++ v ++ innerSuffix, .inner e.id.original v, false⟩]
+  | .scala _ => [⟨e.id.renamed ++ v ++ innerSuffix, .inner e.id.original v, false⟩]
   | .go _ => [⟨e.id.original ++ v ++ innerSuffix, .inner e.id.original v, false⟩]
   | .python _ => [⟨Lang.Python.innerName e v, .inner e.id.original v, false⟩]
 
@@ -199,61 +200,32 @@ def allDefs (lc : LangCfg) (P : ParsedData) : List Str :=
     | none => []
     | some _ => (Lang.structVariants e).filterMap fun (id, _) => innerDefName lc e id.original
 
-/-! ## the known classes of inconsistency, per reference -/
+/-! ## the known class of inconsistency, per reference
+
+The classes `generic-head-not-renamed` (821da1d), `parent-class-original-name` and
+`inner-struct-original-name` (03e02a1) are repaired, and `definition-under-original-name` (b182a80)
+has shrunk to Go enums. -/
 
 /-- the back end defines this kind of item under `id.original` (every other definition uses
-`id.renamed`) -/
+`id.renamed`): Go enums only -/
 def defUsesOriginal : LangCfg → RustItem → Bool
-  | .kotlin _, .alias _ => true
-  | .scala _, .alias _ => true
-  | .go _, .alias _ => true
   | .go _, .enum _ => true
   | _, _ => false
-
-def isKotlinOrScala : LangCfg → Bool
-  | .kotlin _ => true
-  | .scala _ => true
-  | _ => false
 
 /-- the item is `serde(rename)`d to something else than its Rust name -/
 def Renamed (it : RustItem) : Bool := (itemId it).renamed != (itemId it).original
 
-/-- **Known, generic head**: the head of a generic application names a renamed type whose
-definition uses the new name (`check_type` never rewrites `RustType::Generic::id`) — all six back
-ends -/
-def Known_generic_head (lc : LangCfg) (P : ParsedData) (ref : Ref) : Bool :=
-  match ref.target with
-  | .type o => ref.head && (typeItems P).any fun t =>
-      (itemId t).original == o && Renamed t && !defUsesOriginal lc t
-  | _ => false
-
-/-- **Known, definition under the original name**: a plain reference (rewritten by `reconcile` to
-the new name) to a renamed Kotlin / Scala / Go type alias or Go enum, which those back ends define
-under the Rust name -/
+/-- **Known, definition under the original name**: a reference — plain or the head of a generic
+application, both are rewritten by `reconcile` to the new name — to a renamed *Go enum*, which Go
+defines under the Rust name -/
 def Known_def_original (lc : LangCfg) (P : ParsedData) (ref : Ref) : Bool :=
   match ref.target with
-  | .type o => !ref.head && (typeItems P).any fun t =>
+  | .type o => (typeItems P).any fun t =>
       (itemId t).original == o && Renamed t && defUsesOriginal lc t
   | _ => false
 
-/-- **Known, parent**: the cases of a renamed tagged enum extend `<original>` in Kotlin and Scala
-while the sealed class / trait is defined under the new name -/
-def Known_parent (lc : LangCfg) (P : ParsedData) (ref : Ref) : Bool :=
-  match ref.target with
-  | .parent o => isKotlinOrScala lc && P.enums.any fun e =>
-      e.id.original == o && e.keys.isSome && e.id.renamed != e.id.original
-  | _ => false
-
-/-- **Known, helper struct**: Kotlin and Scala refer to `<original><Variant>Inner` while the helper
-is defined as `<renamed><Variant>Inner` -/
-def Known_inner (lc : LangCfg) (P : ParsedData) (ref : Ref) : Bool :=
-  match ref.target with
-  | .inner o _ => isKotlinOrScala lc && P.enums.any fun e =>
-      e.id.original == o && e.id.renamed != e.id.original
-  | _ => false
-
-def KnownRef (lc : LangCfg) (P : ParsedData) (ref : Ref) : Bool :=
-  Known_generic_head lc P ref || Known_def_original lc P ref || Known_parent lc P ref || Known_inner lc P ref
+/-- the per-reference known classes: only `Known_def_original` is left -/
+def KnownRef (lc : LangCfg) (P : ParsedData) (ref : Ref) : Bool := Known_def_original lc P ref
 
 /-- **Known, shadowing** (a property of the program): some generic parameter has the Rust name or
 the new name of a `serde(rename)`d item; `reconcile` then renames the *parameter*
